@@ -429,6 +429,52 @@ func (c *Ctx) classifyLoop(fn *ssa.Function, l *natLoop) string {
 				if shr {
 					return "remaining input strictly shrinks on every iteration"
 				}
+				// or the remainder is what a cutting helper hands back: on success a slice of its
+				// argument that starts at least one byte in; on failure the loop is left
+				cut := true
+				nLatch := 0
+				for i, p := range l.header.Preds {
+					if !l.blocks[p] {
+						continue
+					}
+					nLatch++
+					ex, isEx := phi.Edges[i].(*ssa.Extract)
+					if !isEx {
+						cut = false
+						continue
+					}
+					hc, isCall := ex.Tuple.(*ssa.Call)
+					if !isCall {
+						cut = false
+						continue
+					}
+					h := hc.Call.StaticCallee()
+					pi := -1
+					for j, arg := range hc.Call.Args {
+						if arg == ssa.Value(phi) {
+							pi = j
+						}
+					}
+					if h == nil || !inModule(h) || len(h.Blocks) == 0 || pi < 0 || pi >= len(h.Params) || !cutsAtLeastOne(c, h, ex.Index, h.Params[pi]) {
+						cut = false
+						continue
+					}
+					last := hc.Call.Signature().Results().Len() - 1
+					flag := resultValue(hc, last)
+					if flag == nil {
+						cut = false
+						continue
+					}
+					w := (&Walk{Fn: fn, Assume: failAssumption(flag)}).After(hc)
+					for _, lt := range l.latches {
+						if w.Reached[lt.Instrs[len(lt.Instrs)-1]] {
+							cut = false
+						}
+					}
+				}
+				if cut && nLatch > 0 {
+					return "remaining input is what a cutting helper leaves: at least one byte shorter on success, and a failure leaves the loop"
+				}
 			}
 		}
 	}
@@ -652,7 +698,99 @@ func appendGrowthLoop(l *natLoop) string {
 			return "queue slice loses its head element in every iteration"
 		}
 	}
+	if why := queueHelperLoop(l); why != "" {
+		return why
+	}
 	return appendGrowth2(l)
+}
+
+// queueHelperLoop: `for { x, ok := h(); if !ok { return }; ... }` where h is a method of the
+// module that answers false without touching the queue, or true after cutting at least one
+// element off the front of a queue field (f = f[k:], k >= 1): every turn that goes round has
+// shortened the queue.
+func queueHelperLoop(l *natLoop) string {
+	for b := range l.blocks {
+		for _, in := range b.Instrs {
+			call, ok := in.(*ssa.Call)
+			if !ok {
+				continue
+			}
+			h := call.Call.StaticCallee()
+			if h == nil || !inModule(h) || len(h.Blocks) == 0 {
+				continue
+			}
+			res := h.Signature.Results()
+			if res.Len() < 1 {
+				continue
+			}
+			if bt, isB := res.At(res.Len() - 1).Type().Underlying().(*types.Basic); !isB || bt.Kind() != types.Bool {
+				continue
+			}
+			dom := true
+			for _, lt := range l.latches {
+				if !(b == lt || b.Dominates(lt)) {
+					dom = false
+				}
+			}
+			if !dom {
+				continue
+			}
+			// a false answer leaves the loop
+			flag := resultValue(call, res.Len()-1)
+			if flag == nil {
+				continue
+			}
+			w := (&Walk{Fn: call.Parent(), Assume: failAssumption(flag)}).After(call)
+			leaves := true
+			for _, lt := range l.latches {
+				if w.Reached[lt.Instrs[len(lt.Instrs)-1]] {
+					leaves = false
+				}
+			}
+			if !leaves {
+				continue
+			}
+			// every true return of h lies behind a store f = f[k:]
+			okAll, n := true, 0
+			for _, hb := range h.Blocks {
+				ret, isRet := hb.Instrs[len(hb.Instrs)-1].(*ssa.Return)
+				if !isRet || hb == h.Recover {
+					continue
+				}
+				rv := unspill(ret.Results[len(ret.Results)-1])
+				if k, isK := constBool(rv); isK && !k {
+					continue
+				}
+				n++
+				cut := false
+				for _, hb2 := range h.Blocks {
+					for _, in2 := range hb2.Instrs {
+						st, isSt := in2.(*ssa.Store)
+						if !isSt {
+							continue
+						}
+						_, f, _, okF := fieldOfAddr(st.Addr)
+						sl, isSl := st.Val.(*ssa.Slice)
+						if !okF || !isSl || sl.Low == nil || sl.High != nil {
+							continue
+						}
+						k, isK := constInt(sl.Low)
+						_, f2, _, okL := fieldLoad(sl.X)
+						if isK && k >= 1 && okL && f2 == f && (hb2 == hb || hb2.Dominates(hb)) {
+							cut = true
+						}
+					}
+				}
+				if !cut {
+					okAll = false
+				}
+			}
+			if okAll && n > 0 {
+				return "a helper takes the head off a queue on every turn that goes round, and its refusal leaves the loop"
+			}
+		}
+	}
+	return ""
 }
 
 func appendGrowth2(l *natLoop) string {
@@ -757,4 +895,120 @@ func blocksInRead(fn *ssa.Function, d int) bool {
 	}
 	blocksInReadCache[fn] = res
 	return res
+}
+
+// cutsAtLeastOne: every non-nil value the function returns as result #k is par[e:] with e >= 1.
+func cutsAtLeastOne(c *Ctx, h *ssa.Function, k int, par *ssa.Parameter) bool {
+	n := 0
+	for _, b := range h.Blocks {
+		ret, ok := b.Instrs[len(b.Instrs)-1].(*ssa.Return)
+		if !ok || b == h.Recover || k >= len(ret.Results) {
+			continue
+		}
+		rv := unspill(ret.Results[k])
+		if isNilConst(rv) {
+			continue
+		}
+		sl, isSl := rv.(*ssa.Slice)
+		if !isSl || sl.X != ssa.Value(par) || sl.Low == nil || sl.High != nil || !atLeastOne(c, sl.Low, 0, map[ssa.Value]bool{}) {
+			return false
+		}
+		n++
+	}
+	return n > 0
+}
+
+// atLeastOne / nonNegative: cheap sign arguments for cursor arithmetic (constants, zero
+// extensions of unsigned values, sums, ors and constant shifts of such, lengths; a loop
+// accumulator is judged by its initial value and its step; a parameter of an unexported function
+// by the arguments at all of its call sites). Overflow is not considered.
+func atLeastOne(c *Ctx, v ssa.Value, d int, busy map[ssa.Value]bool) bool {
+	if d > 8 {
+		return false
+	}
+	if k, ok := constInt(v); ok {
+		return k >= 1
+	}
+	switch x := v.(type) {
+	case *ssa.BinOp:
+		if x.Op == token.ADD {
+			return (atLeastOne(c, x.X, d+1, busy) && nonNegative(c, x.Y, d+1, busy)) || (atLeastOne(c, x.Y, d+1, busy) && nonNegative(c, x.X, d+1, busy))
+		}
+	case *ssa.Phi:
+		if busy[x] {
+			return false
+		}
+		busy[x] = true
+		defer delete(busy, x)
+		for _, e := range x.Edges {
+			if !atLeastOne(c, e, d+1, busy) {
+				return false
+			}
+		}
+		return len(x.Edges) > 0
+	case *ssa.Parameter:
+		return c.allResolved(x, func(a ssa.Value) bool {
+			if a == ssa.Value(x) {
+				return false
+			}
+			k, ok := constInt(a)
+			return ok && k >= 1
+		})
+	}
+	return false
+}
+
+func nonNegative(c *Ctx, v ssa.Value, d int, busy map[ssa.Value]bool) bool {
+	if d > 10 {
+		return false
+	}
+	if k, ok := constInt(v); ok {
+		return k >= 0
+	}
+	switch x := v.(type) {
+	case *ssa.Convert:
+		sb, ssigned, sok := isIntLike(x.X.Type())
+		db, _, dok := isIntLike(x.Type())
+		if sok && dok && !ssigned && db > sb {
+			return true // zero extension of an unsigned value into a wider type
+		}
+		if sok && dok && db >= sb {
+			return nonNegative(c, x.X, d+1, busy)
+		}
+	case *ssa.BinOp:
+		switch x.Op {
+		case token.OR, token.ADD, token.AND:
+			return nonNegative(c, x.X, d+1, busy) && nonNegative(c, x.Y, d+1, busy)
+		case token.SHL, token.MUL:
+			if k, ok := constInt(x.Y); ok && k >= 0 && k < 32 {
+				return nonNegative(c, x.X, d+1, busy)
+			}
+		}
+	case *ssa.Phi:
+		if busy[x] {
+			return true // the accumulator itself, assumed on the way round
+		}
+		busy[x] = true
+		defer delete(busy, x)
+		for _, e := range x.Edges {
+			if !nonNegative(c, e, d+1, busy) {
+				return false
+			}
+		}
+		return len(x.Edges) > 0
+	case *ssa.Call:
+		if calleeName(&x.Call) == "builtin:len" {
+			return true
+		}
+	case *ssa.UnOp:
+		if bt, ok := x.Type().Underlying().(*types.Basic); ok && bt.Info()&types.IsUnsigned != 0 {
+			return true
+		}
+	case *ssa.Parameter:
+		return c.allResolved(x, func(a ssa.Value) bool {
+			k, ok := constInt(a)
+			return ok && k >= 0
+		})
+	}
+	return false
 }
